@@ -72,6 +72,17 @@ def _module_rects(S, info):
           params=[dict(kinds=list(k), zero=z) for k in (("square",), ("soft1",), ("soft2",), ("hard2",), ("square", "hard1"), ("soft1", "square"))
                   for z in (False, True)])
 def initial_allocation_per_cell(S, kinds, zero):
+    _initial_allocation_per_cell(S, kinds, zero)
+
+
+@contract(P, tier="thorough", functions=[A + "initial_allocation", A + "_detect_fixed_rectangles"], budget_s=3000, shards=8, shard_depth=4,
+          params=[dict(kinds=list(k), zero=z) for k in (("square", "soft2", "hard1"), ("soft2", "hard2"), ("square", "square", "soft1")) for z in (False, True)],
+          scope="netlists of 3 modules / two 2-rectangle modules")
+def initial_allocation_per_cell_more(S, kinds, zero):
+    _initial_allocation_per_cell(S, kinds, zero)
+
+
+def _initial_allocation_per_cell(S, kinds, zero):
     """initial_allocation on an allocation holding one arbitrary refinable cell (its loop over the cells is a flat map;
     shape checked on the AST): the cell's occupancy map is exactly {m: covered fraction of the cell}."""
     flatmap_or_note(S, Allocation.initial_allocation, 1)
